@@ -115,6 +115,7 @@ def P_C11 (t : Str) (obs : Sx) : Option String :=
   | .list (.atom "panic" :: _) => some "panic"
   | .list (.atom "timeout" :: _) => some (deadlineVerdict t)
   | .list (.atom "display-panic" :: _) => some "display-panicked"
+  | .list (.atom "unstable" :: _) => some "result-differs-between-identical-calls"
   | .list [.atom "skipped"] => none
   | .list (.atom "parse-error" :: _) =>
     match sp with
@@ -160,6 +161,7 @@ def P_C12 (t : Str) (obs : Sx) : Option String :=
   match obs with
   | .list (.atom "panic" :: _) => some "panic"
   | .list (.atom "timeout" :: _) => some (deadlineVerdict t)
+  | .list (.atom "unstable" :: _) => some "result-differs-between-identical-calls"
   | .list [.atom "display-panic", _, col, _] => some ("display-panicked column=" ++ ((asNat col).map toString).getD "?")
   | .list [.atom "skipped"] => none
   | .list [.atom "parse-error", col, line, shown] =>
